@@ -127,7 +127,13 @@ def regen_tables():
     p2 = run([sys.executable, os.path.join(HERE, 'gen_kernels.py'), REPO])
     if p2.returncode != 0:
         return False, (p.stdout + " | " + p2.stderr).strip(), json.load(open(jpath))
-    return True, (p.stdout.strip() + " | " + p2.stdout.strip()), json.load(open(jpath))
+    # part 3: 2D Euler kernels -> Generated/Kernels2D.lean + Props/Kernels2DBridge.lean
+    p3 = run([sys.executable, os.path.join(HERE, 'gen_kernels2d.py'), REPO])
+    if p3.returncode != 0:
+        return False, (p.stdout + " | " + p2.stdout + " | " + p3.stderr).strip(), json.load(open(jpath))
+    # (a kernel that cannot be translated is left out with its bridge theorem: only the properties listing that bridge
+    #  lose a proof obligation; the message names it)
+    return True, (p.stdout.strip() + " | " + p2.stdout.strip() + " | " + p3.stdout.strip()), json.load(open(jpath))
 
 
 def lake_build(targets):
